@@ -1,6 +1,6 @@
 SPECIFICATION Spec
 CONSTANTS
-  MaxU = 6
+  MaxU = 5
   Variant = "repaired"
   Measures = {"JACCARD", "COSINE", "DICE", "OVERLAP"}
 INVARIANT Safe
